@@ -1,4 +1,5 @@
 import PrimaiteModel.Model.AgentsTap
+import PrimaiteModel.Gen.AgentsGet
 open Primaite Primaite.Agents
 
 /-! Line protocol of the C19 driver (one op per line, one answer per line):
@@ -144,6 +145,21 @@ def step (st : DState) : List String → DState × String
       let (s', o) := if isDm then dmStep cfg s t d k.toNat else periodicStep cfg s t d k.toNat
       ({ st with pst := some s' }, s!"{showPOut cfg o} {s'.next} {s'.numExec}")
     | _, _, _ => (st, "bad-op")
+  | ["gen-vector", tb] =>
+    -- counter-model search for `C19_gen_prob_vector`: the TRANSLATED `ProbabilisticAgent.probabilities` against the model's by-key vector
+    match csvPairs tb with
+    | some tb =>
+      let sh : Option (List Nat) → String := fun o => match o with
+        | none => "raised" | some ws => ",".intercalate (ws.map toString)
+      (st, s!"{sh (Primaite.Gen.AgentsGet.probabilities tb)} {sh (Table.vectorByKey tb)}")
+    | none => (st, "bad-op")
+  | ["gen-periodic", mx, f, v, t, d, nx, ne] =>
+    -- the TRANSLATED `PeriodicAgent.get_action` on one state (next, numExec)
+    match ints [mx, f, v, t, d, nx, ne] with
+    | some [mx, f, v, t, d, nx, ne] =>
+      let g := Primaite.Gen.AgentsGet.periodicGetAction mx f v t d { next := nx, numExec := ne }
+      (st, if g.1.raised then "raised" else s!"{g.2.1} {g.1.next} {g.1.numExec}")
+    | _ => (st, "bad-op")
   | ["prob", ord, n, un, ud, tb] =>
     match n.toNat?, un.toNat?, ud.toNat?, csvPairs tb with
     | some n, some un, some ud, some tb =>
